@@ -131,9 +131,9 @@ func init() {
 		NotDecided:  "that position arithmetic and slice bounds implement the grammar for every byte string, and re-encoding equality, are not decided (an independent reference decoder comparison is dynamic).",
 		Assumptions: stdAssumptions})
 	register(&Property{ID: "C04", Title: "SML print->parse round trip",
-		Rules:       []Rule{rSMLTab, rQuote, only(rSizes, "String:bounds", "bounds->variable", "bounds-flow", "NewASCIINodeVariable", "parseDataItemSize"), only(rLexClass, "upper-emit", "upper-consts"), rHdrSpell, rPrint, only(rFormat, "ast."), rLitSrc},
-		Explanation: "Decides that printer and reader use the same alphabets: each of the 14 type keywords is classified by the lexer and dispatched by the parser to the factory and element width of the same format, numbers are read with the item's own bit size (R1e-sml); every ASCII character the printer puts inside a quoted run can be read back there and the value never reaches the output unfiltered, while the reader takes quoted text literally (R23); ASCII-variable bounds are printed from, and parsed into, (min, max) in the same order (R14-size data flow). Printers write '<KEYWORD[n] ...>' with their own keyword, numbers in base 10 / shortest float of the item's width / 0b binary / T,F, and variable names at their positions (R1e-print); the 33 header spellings are read back in full by the header lexer's patterns (R1e-header); no format string is computed from data (R28); each numeric item is read by exactly one strconv function (R29).",
-		NotDecided:  "that parse(print(m)) equals m on values (number formatting, shortest float printing, ellipsis numbering, message-name lexing) is a run-time-value question and is not decided.",
+		Rules:       []Rule{rSMLTab, rQuote, only(rSizes, "String:bounds", "bounds->variable", "bounds-flow", "NewASCIINodeVariable", "parseDataItemSize"), only(rLexClass, "upper-emit", "upper-consts"), rHdrSpell, rPrint, only(rFormat, "ast."), rLitSrc, only(rDomSML, "ellipsis-numbering")},
+		Explanation: "Decides that printer and reader use the same alphabets: each of the 14 type keywords is classified by the lexer and dispatched by the parser to the factory and element width of the same format, numbers are read with the item's own bit size (R1e-sml); every ASCII character the printer puts inside a quoted run can be read back there and the value never reaches the output unfiltered, while the reader takes quoted text literally (R23); ASCII-variable bounds are printed from, and parsed into, (min, max) in the same order (R14-size data flow). Printers write '<KEYWORD[n] ...>' with their own keyword, numbers in base 10 / shortest float of the item's width / 0b binary / T,F, and variable names at their positions (R1e-print); the 33 header spellings are read back in full by the header lexer's patterns (R1e-header); no format string is computed from data (R28); each numeric item is read by exactly one strconv function (R29); on nested lists with two and three ellipses the reader numbers every ellipsis by its place in the text (lexer and item parser evaluated on the texts).",
+		NotDecided:  "that parse(print(m)) equals m on values (number formatting, shortest float printing, message-name lexing, ellipsis numbering beyond the nested samples) is a run-time-value question and is not decided.",
 		Assumptions: stdAssumptions})
 	register(&Property{ID: "C05", Title: "SML literals denote exactly the stored values",
 		Rules:       []Rule{only(rErr, "sml.parser"), only(rIface, "sml.parser", "consumer:"), rSMLTab, rDomSML, rErrSupp, only(rCkRep, "ast.New"), rLitSrc},
@@ -171,8 +171,8 @@ func init() {
 		NotDecided:  "that stored values are printed and encoded unchanged (C02/C04), float rounding, the languages of the name patterns beyond anchoring, and the list rules (ellipsis position, duplicates) beyond the presence of validation on every construction path are not decided.",
 		Assumptions: stdAssumptions})
 	register(&Property{ID: "C13", Title: "16,777,215-byte item limit and length header",
-		Rules:       []Rule{rLimit, rHeader, rEncTab, rShift, only(rAllocH, "parseMessageText"), rAllocSite},
-		Explanation: "The limit constant is 16,777,215 and each of the 7 factories refuses exactly count*width > limit for all 14 formats (R14-limit, cells at limit/width); the header routine returns an error beyond the limit and otherwise the E5 format byte, the minimal number of length bytes and the big-endian length for every type name on every cell of the size axis, including 255|256 and 65535|65536 (R26); each node requests the header of its own type for its element count (R1-encode); the decoder accumulates 1-3 length bytes without losing bits (R4). No path allocates a node outside its factory, so the limit check cannot be bypassed (R13b).",
+		Rules:       []Rule{rLimit, rHeader, rEncTab, rShift, only(rAllocH, "parseMessageText"), rAllocSite, only(rAdvance, "sequence-of-items")},
+		Explanation: "The limit constant is 16,777,215 and each of the 7 factories refuses exactly count*width > limit for all 14 formats (R14-limit, cells at limit/width); the header routine returns an error beyond the limit and otherwise the E5 format byte, the minimal number of length bytes and the big-endian length for every type name on every cell of the size axis, including 255|256 and 65535|65536 (R26); each node requests the header of its own type for its element count (R1-encode); the decoder accumulates 1-3 length bytes without losing bits (R4). No path allocates a node outside its factory, so the limit check cannot be bypassed (R13b). Evaluated on a list of items whose length fields have 2, 1 and 3 bytes, the decoder reads each length on its own, whatever came before (R5b sequence).",
 		NotDecided:  "the header is decided on one representative per cell of the size axis, which is exact as long as the routine only compares the size (or bytes of it) with constants; a sweep of all 16.7M sizes is dynamic and not done.",
 		Assumptions: stdAssumptions})
 	register(&Property{ID: "C14", Title: "HSMS control messages",
